@@ -83,7 +83,7 @@ def gen_yaml_opts(rng, bare=False):
 
 
 PATHKINDS = ['str', 'Path', 'str', 'Path', 'rel', 'relPath', 'dotdot']
-SINKS_PATH = ['p0', 'p1']
+SINKS_PATH = ['p0', 'p1', 'p2']     # p2 lives in another directory and can be reached through a symlinked directory + '..'
 SINKS_STREAM = ['s0', 's1', 's2', 's3', 's4']   # StringIO, TextIOWrapper over SimRaw, FaultyStringIO, ChunkyText, PipeText (non-seekable)
 
 
@@ -492,6 +492,8 @@ class Exec:
         os.mkdir(os.path.join(self.tmpdir, '~'))
         os.mkdir(os.path.join(self.tmpdir, 'sub'))
         os.mkdir(os.path.join(self.tmpdir, 'home'))
+        os.makedirs(os.path.join(self.tmpdir, 'elsewhere', 'deep'))
+        os.symlink(os.path.join('elsewhere', 'deep'), os.path.join(self.tmpdir, 'lnk'))
         if not self.real:
             sys.modules['pane.io'].open = self.fs.open  # the seam (module global shadows the builtin)
             self._saved_cwd = os.getcwd()
@@ -544,6 +546,12 @@ class Exec:
         directory (which is the scratch directory for the duration of the run), or through a 'sub/..' detour.
         """
         rel = name + '.txt' if name == 'p0' else os.path.join('~', name + '.txt')
+        if name == 'p2':
+            # <scratch>/elsewhere/p2.txt.  'lnk' is a symlink to <scratch>/elsewhere/deep, so '<scratch>/lnk/../p2.txt'
+            # denotes the same file for the kernel - and <scratch>/p2.txt for anybody who collapses '..' lexically
+            rel = os.path.join('elsewhere', 'p2.txt')
+            if kind == 'dotdot':
+                return os.path.join(self.tmpdir, 'lnk', '..', 'p2.txt')
         if self.real and kind in ('rel', 'relPath'):
             kind = 'str'            # the real-disk class does not change the process's current directory
         if kind == 'rel':
